@@ -119,3 +119,111 @@ func (o *Once) Do(f func()) {
 		f()
 	}
 }
+
+func (m *Map) LoadAndDelete(k any) (any, bool) {
+	vsched.Point("Map.LoadAndDelete")
+	return m.real.LoadAndDelete(k)
+}
+func (m *Map) Swap(k, v any) (any, bool) {
+	vsched.Point("Map.Swap")
+	return m.real.Swap(k, v)
+}
+func (m *Map) CompareAndSwap(k, o, n any) bool {
+	vsched.Point("Map.CompareAndSwap")
+	return m.real.CompareAndSwap(k, o, n)
+}
+func (m *Map) CompareAndDelete(k, o any) bool {
+	vsched.Point("Map.CompareAndDelete")
+	return m.real.CompareAndDelete(k, o)
+}
+
+// RWMutex: readers share, a writer excludes everyone. Modelled without writer preference (a writer waits until
+// nobody holds the lock), which admits every behaviour of the real lock that terminates.
+type RWMutex struct {
+	real    sync.RWMutex
+	writer  bool
+	readers int
+}
+
+func (m *RWMutex) Lock() {
+	if !vsched.Active() {
+		m.real.Lock()
+		return
+	}
+	vsched.Wait("RWMutex.Lock", func() bool { return !m.writer && m.readers == 0 })
+	m.writer = true
+}
+
+func (m *RWMutex) Unlock() {
+	if !vsched.Active() {
+		if m.writer {
+			m.writer = false
+			return
+		}
+		m.real.Unlock()
+		return
+	}
+	vsched.Point("RWMutex.Unlock")
+	if !m.writer {
+		panic("vsync: unlock of unlocked RWMutex")
+	}
+	m.writer = false
+}
+
+func (m *RWMutex) RLock() {
+	if !vsched.Active() {
+		m.real.RLock()
+		return
+	}
+	vsched.Wait("RWMutex.RLock", func() bool { return !m.writer })
+	m.readers++
+}
+
+func (m *RWMutex) RUnlock() {
+	if !vsched.Active() {
+		if m.readers > 0 {
+			m.readers--
+			return
+		}
+		m.real.RUnlock()
+		return
+	}
+	vsched.Point("RWMutex.RUnlock")
+	if m.readers <= 0 {
+		panic("vsync: RUnlock of RWMutex that is not read-locked")
+	}
+	m.readers--
+}
+
+func (m *RWMutex) RLocker() sync.Locker { return rlocker{m} }
+
+type rlocker struct{ m *RWMutex }
+
+func (r rlocker) Lock()   { r.m.RLock() }
+func (r rlocker) Unlock() { r.m.RUnlock() }
+
+// Pool: Get hands back the most recently Put object (or New()); both are scheduling points. The real pool may drop
+// objects at any time, which only makes New() run more often - behaviours the explorer reaches anyway when the pool
+// is empty.
+type Pool struct {
+	New   func() any
+	items []any
+}
+
+func (p *Pool) Get() any {
+	vsched.Point("Pool.Get")
+	if n := len(p.items); n > 0 {
+		x := p.items[n-1]
+		p.items = p.items[:n-1]
+		return x
+	}
+	if p.New != nil {
+		return p.New()
+	}
+	return nil
+}
+
+func (p *Pool) Put(x any) {
+	vsched.Point("Pool.Put")
+	p.items = append(p.items, x)
+}
